@@ -301,6 +301,20 @@ func drivers(quick bool) []conc.Driver {
 			}
 		}
 	}
+	// the size ladder of the chunk count: 2^k-1, 2^k, 2^k+1 one-element chunks on two and three workers,
+	// ONE schedule each (the canonical one) - the number of schedules of such a run is beyond enumeration;
+	// what these drivers decide is only that the calls return and the chunks partition the input there
+	topChunks := 513
+	if !quick {
+		topChunks = 2049
+	}
+	for _, n := range enum.Ladder(7, topChunks) {
+		cfg0 := cfg
+		cfg0.Canonical = true
+		cfg0.Symmetry = false
+		cfg0.Horizon = 1000000
+		ds = append(ds, conc.Driver{Name: fmt.Sprintf("map-s%d-t%d-c1-canonical", n, 2+n%2), Cfg: cfg0, Mk: mapper(n, 2+n%2, 1)})
+	}
 	add("promisemap-s0-t1-c1", mapDriver(0, 1, 1, true))
 	add("promisemap-s1-t2-c1", mapDriver(1, 2, 1, true))
 	if !quick {
